@@ -782,6 +782,7 @@ func checkC19(c *Ctx) {
 	}
 	checkHexTables(c, "C19.hex-tables")
 	checkC19Round2(c)
+	checkKeyCodeTables(c, "C19.key-code-tables")
 }
 
 // dependsOnUse: the comparison result flows (through ||/phi) into a MakeInterface of bool.
